@@ -214,7 +214,7 @@ def bool_atoms(term, truth):
         op = term[1] if truth else NEG[term[1]]
         return [("cmp", op, term[2], term[3])]
     if term[0] == "const" and isinstance(term[1], int):
-        return []
+        return [] if bool(term[1]) == truth else [("contra",)]
     if term[0] == "call":
         name = term[1]
         if name in ("is_some", "is_ok") and len(term[2]) == 1:
